@@ -109,7 +109,7 @@ def run_check(prop, tier):
         for fl in res["failures"]:
             if fl["verdict"] in ("DIVERGE", "ENGINE"):
                 continue
-            msg = symbolize(exe, fl["msg"])
+            msg = symbolize(exe, fl.get("raw_msg") or fl["msg"])
             fl["msg_sym"] = msg
             with open(fl["replay"], "a") as rf:
                 rf.write("harness %s\nproperty %s\nsymbolized %s\n" % (hname, prop, msg))
